@@ -13,6 +13,7 @@ Line-protocol driver for C08 (RLP).  Ops (see harness/cmd/c08/main.go):
   stream <auto|lim<k>|unl> <hex> <op,op,…> a script of Stream method calls, error-exact, + bytes consumed
   dec <type> <hex>                         typed DecodeBytes (pure model `decodeTy`), ok/err + value
   enc <type> <value>                       typed EncodeToBytes (`encT`)
+  api <step;step;…>                        a session of API calls on shared library state (see `apiStep`)
   encbuf <value>                           EncodeToBytes of a []byte/[]interface{} tree through the encbuf model (`encodeViaBuf`)
 
 Unparseable lines answer `bad-op` (never a default).
@@ -240,6 +241,106 @@ def resCoarse (r : Except Err String) : String :=
   | .ok s => "ok " ++ s
   | .error _ => "err"
 
+/-! ### `api` sessions: several API calls on shared library state (pools, caches, one reused Stream).
+    The model is pure, so every step's answer depends on its own arguments only (and, for a reader,
+    on what was already read from it) — whatever else happened in between. -/
+
+structure Sess where
+  readers : List (String × Bytes × Bool)   -- id, bytes not yet read, EOF seen
+  kept : List String                        -- every byte result produced so far (for `chk`)
+
+def encHex (ty : Ty) (v : Val) : Option String :=
+  match encT ty v with
+  | .ok b => some (toHex b)
+  | .error _ => none
+
+def setReader (rs : List (String × Bytes × Bool)) (id : String) (b : Bytes) (eof : Bool) : List (String × Bytes × Bool) :=
+  (id, b, eof) :: rs.filter (fun r => r.1 != id)
+
+def getReader (rs : List (String × Bytes × Bool)) (id : String) : Option (Bytes × Bool) :=
+  match rs.find? (fun r => r.1 == id) with
+  | some (_, b, e) => some (b, e)
+  | none => none
+
+/-- the nested-encoder fixture: `outer{Pre string; In inner{V []uint64}; Post uint64}`, `inner.EncodeRLP`
+    writes the encoding of `V` obtained from a nested EncodeToBytes / EncodeToReader / Encode -/
+def nestedTy : Ty := .struct [(.none, .str), (.none, .slice (.uint 64)), (.none, .uint 64)]
+
+def apiStep (ss : Sess) (st : String) : Option (String × Sess) :=
+  match st.splitOn ":" with
+  | ["eb", t, v] | ["ew", t, v] =>
+    match tyOf? t, valOf? v with
+    | some ty, some val =>
+      match encHex ty val with
+      | some h => some (h, { ss with kept := ss.kept ++ [h] })
+      | none => some ("!", ss)
+    | _, _ => none
+  | ["en", _, v] =>
+    match valOf? v with
+    | some val =>
+      match encHex nestedTy val with
+      | some h => some (h, { ss with kept := ss.kept ++ [h] })
+      | none => some ("!", ss)
+    | none => none
+  | ["er", id, t, v] =>
+    match tyOf? t, valOf? v with
+    | some ty, some val =>
+      match encT ty val with
+      | .ok b => some (toString b.length, { ss with readers := setReader ss.readers id b false })
+      | .error _ => some ("!", ss)
+    | _, _ => none
+  | ["rd", id, n] =>
+    match getReader ss.readers id, natOf? n with
+    | some (b, eof), some k =>
+      if eof then some ("-$", ss)
+      else
+        let got := b.take k
+        let rest := b.drop k
+        let e := decide (k ≥ b.length)
+        some (toHex got ++ (if e then "$" else ""), { ss with readers := setReader ss.readers id rest e })
+    | _, _ => none
+  | ["dr", id] =>
+    match getReader ss.readers id with
+    | some (b, _) =>
+      let h := toHex b
+      some (h, { ss with readers := setReader ss.readers id [] true, kept := ss.kept ++ [h] })
+    | none => none
+  | ["db", t, h] =>
+    match tyOf? t, ofHex? h with
+    | some ty, some b => some (resCoarse ((decodeTy ty b).map showVal), ss)
+    | _, _ => none
+  | ["dd", t, h] =>
+    match tyOf? t, ofHex? h with
+    | some ty, some b =>
+      match decT (typedFuel ty b) ty b with
+      | .ok (v, _) => some ("ok " ++ showVal v, ss)
+      | .error _ => some ("err", ss)
+    | _, _ => none
+  | ["sr", h, ops] =>
+    match ofHex? h with
+    | some b =>
+      match runScript (newStream b 0) (ops.splitOn ",") [] with
+      | some (rs, s) => some ("|".intercalate rs ++ "|c=" ++ toString s.consumed, ss)
+      | none => none
+    | none => none
+  | ["sl", n, h, ops] =>
+    match ofHex? h, natOf? n with
+    | some b, some k =>
+      let s0 := newStream b k
+      match runScript { s0 with kind := some .list, size := k } (ops.splitOn ",") [] with
+      | some (rs, s) => some ("|".intercalate rs ++ "|c=" ++ toString s.consumed, ss)
+      | none => none
+    | _, _ => none
+  | ["chk"] => some (",".intercalate ss.kept, ss)
+  | _ => none
+
+def runApi : Sess → List String → List String → Option (List String)
+  | _, [], acc => some acc.reverse
+  | ss, st :: sts, acc =>
+    match apiStep ss st with
+    | none => none
+    | some (r, ss) => runApi ss sts (r :: acc)
+
 def step (_ : Unit) (line : String) : Unit × String :=
   let ans : String :=
     match splitWords line with
@@ -287,6 +388,10 @@ def step (_ : Unit) (line : String) : Unit × String :=
         match valItem? val with
         | some it => "ok " ++ toHex (encodeViaBuf it)
         | none => "bad-op"
+      | none => "bad-op"
+    | ["api", script] =>
+      match runApi { readers := [], kept := [] } (script.splitOn ";") [] with
+      | some rs => ";".intercalate rs
       | none => "bad-op"
     | ["enc", t, v] =>
       match tyOf? t, valOf? v with
